@@ -101,7 +101,18 @@ impl Prop for C11 {
             let reported = match rel {
                 0 => main,
                 1 => ded,
-                2 => 5_000_000 + t.draw(CFG, 1_000_000) as u32,
+                2 => {
+                    match t.draw(CFG, 8) {
+                        0 => 0,
+                        1 => 1,
+                        2 => main + 1,
+                        3 => main - 1,
+                        4 => ded + 1,
+                        5 => main ^ 0x80_0000,
+                        6 => ded & 0xffff,
+                        _ => 5_000_000 + t.draw(CFG, 1_000_000) as u32,
+                    }
+                }
                 _ => t.draw(CFG, 1 << 24) as u32,
             };
             let st = ValveState::generate(&mut t, false, false, Some(reported), 6, 6);
